@@ -240,9 +240,19 @@ class Judge:
     def g_truthy(self, expr):
         """edges on which `expr` (a list/str) is known non-empty."""
         et = norm(expr)
+        # locals bound exactly once, to this very expression, stand for it
+        stores = {}
+        for n in walk_function(self.f.node):
+            if isinstance(n, ast.Name) and isinstance(n.ctx, ast.Store):
+                stores[n.id] = stores.get(n.id, 0) + 1
+        same = {et}
+        for n in walk_function(self.f.node):
+            if isinstance(n, ast.Assign) and len(n.targets) == 1 and isinstance(n.targets[0], ast.Name) \
+                    and stores.get(n.targets[0].id) == 1 and norm(n.value) == et:
+                same.add(n.targets[0].id)
 
         def pred(t):
-            if norm(t) == et:
+            if norm(t) in same:
                 return True
             if isinstance(t, ast.Compare) and len(t.ops) == 1:
                 l, r = norm(t.left), norm(t.comparators[0])
